@@ -1,8 +1,8 @@
 SPECIFICATION Spec
 CONSTANTS
   Mode = "lattice"
-  Fmts = {"elf"}
-  K1 = 0
+  Fmts = {"elf", "pe"}
+  K1 = 3
   K2 = 0
   K3 = 0
   NVer = 3
